@@ -40,10 +40,13 @@ func (n NativeAppendFn) Call(i *Interpreter, arguments []interface{}) (interface
 	if !ok {
 		return nil, fmt.Errorf("append function only works on arrays")
 	}
-	// Append all other arguments to the array
-	array = append(array, arguments[1:]...)
+	// Append all other arguments to a copy, so that neither the argument nor any
+	// array returned earlier shares storage with the result
+	result := make([]interface{}, 0, len(array)+len(arguments)-1)
+	result = append(result, array...)
+	result = append(result, arguments[1:]...)
 
-	return array, nil
+	return result, nil
 }
 
 func (n NativeAppendFn) Arity() int {
